@@ -351,3 +351,508 @@ Proof.
   pose proof (nn_loop_eq divisor (join d1 d0) v (S (L - n - 1)) numerator Hnum Hdiv H2 Hd Hv ltac:(fold n; lia)) as El2.
   fold n in El2. rewrite El2. apply obind_val.
 Qed.
+
+(* ====================== div_nxm (un-normalised Knuth) ====================== *)
+Definition nxm_body (divisor : list Z) (n d v shift : Z) : Z -> (list Z * Z) -> outcome (list Z * Z) :=
+  fun k_j t_77 => let j := 0 + k_j in let '(numerator, q_high) := t_77 in do t_33 <- (do t_16 <- chk64 (j + n) ; let n2 := (get_or_default numerator t_16) in
+  do t_17 <- chk64 (j + n) ; do t_18 <- chk64 (t_17 - 1) ; do t_19 <- idx numerator t_18 ; let n21 := (g_dw_join n2 t_19) in
+  do t_20 <- chk64 (j + n) ; do t_21 <- chk64 (t_20 - 2) ; do t_22 <- idx numerator t_21 ; let n0 := t_22 in
+  do t_32 <- (if (shift =? 0) then (Val (n21, n0)) else (do t_23 <- chksh 128 shift ; do t_24 <- chk64 (64 - shift) ; do t_25 <- chksh 64 t_24 ; do t_26 <- chksh 64 shift ; do t_27 <- chk64 (j + n) ; do t_28 <- chk64 (t_27 - 3) ; do t_29 <- idx numerator t_28 ; do t_30 <- chk64 (64 - shift) ; do t_31 <- chksh 64 t_30 ; Val ((Z.lor ((shl128 n21 t_23)) ((shr64 n0 t_25))), (Z.lor ((shl64 n0 t_26)) ((shr64 t_29 t_31)))))) ; Val t_32) ; let '(n21, n0) := t_33 in
+   if negb ((n21 <=? d)) then DebugPanic else
+  do t_70 <- (if (n21 <? d) then (do t_34 <- g_div_3x2_mg10 n21 n0 d v ; let '(q, r) := t_34 in
+   do t_64 <- (if (negb (q =? 0)) then (do t_55 <- (if (shift =? 0) then (do t_35 <- chk64 (j + n) ; do t_36 <- chk64 (t_35 - 2) ; do t_37 <- subslice numerator j t_36 ; do t_38 <- chk64 (n - 2) ; do t_39 <- subslice divisor 0 t_38 ; do t_40 <- g_submul_nx1 t_37 t_39 q ; let '(t_42, t_41) := t_40 in let numerator := splice numerator j t_41 in let borrow := t_42 in
+   let '(r, borrow) := (ov_sub128 r borrow) in
+   let t_45 := (g_dw_low r) in do t_43 <- chk64 (j + n) ; do t_44 <- chk64 (t_43 - 2) ; do _ <- idx numerator t_44 ; let numerator := upd numerator t_44 t_45 in
+   let t_48 := (g_dw_high r) in do t_46 <- chk64 (j + n) ; do t_47 <- chk64 (t_46 - 1) ; do _ <- idx numerator t_47 ; let numerator := upd numerator t_47 t_48 in
+  Val (borrow, numerator)) else (do t_49 <- chk64 (j + n) ; do t_50 <- subslice numerator j t_49 ; do t_51 <- g_submul_nx1 t_50 divisor q ; let '(t_53, t_52) := t_51 in let numerator := splice numerator j t_52 in let borrow := t_53 in
+  do t_54 <- chk64 (j + n) ; let n2 := (get_or_default numerator t_54) in
+  Val ((negb (borrow =? n2)), numerator))) ; let '(t_56, numerator) := t_55 in let borrow := t_56 in
+   do t_63 <- (if borrow then ( let q := (wrap (q - 1)) in 
+  do t_57 <- chk64 (j + n) ; do t_58 <- subslice numerator j t_57 ; do t_59 <- subslice divisor 0 n ; do t_60 <- g_adc_n t_58 t_59 0 ; let '(t_62, t_61) := t_60 in let numerator := splice numerator j t_61 in let carry := t_62 in
+   if negb (carry =? 1) then DebugPanic else
+  Val (q, numerator)) else (Val (q, numerator))) ;
+  let '(q, numerator) := t_63 in
+  Val (numerator, q)) else (Val (numerator, q))) ;
+  let '(numerator, q) := t_64 in
+  Val (q, numerator)) else ( let q := (B - 1) in
+  do t_65 <- chk64 (j + n) ; do t_66 <- subslice numerator j t_65 ; do t_67 <- g_submul_nx1 t_66 divisor q ; let '(t_69, t_68) := t_67 in let numerator := splice numerator j t_68 in let _carry := t_69 in
+  Val (q, numerator))) ; let '(t_71, numerator) := t_70 in let q := t_71 in
+  do t_72 <- chk64 (j + n) ; do t_75 <- (if (t_72 <? ((lenZ numerator))) then ( let t_74 := q in do t_73 <- chk64 (j + n) ; do _ <- idx numerator t_73 ; let numerator := upd numerator t_73 t_74 in
+  Val (numerator, q_high)) else ( let q_high := q in 
+  Val (numerator, q_high))) ;
+  let '(numerator, q_high) := t_75 in
+  Val (numerator, q_high).
+
+Lemma g_div_nxm_unfold numerator divisor :
+  g_div_nxm numerator divisor =
+  (
+  if negb ((3 <=? ((lenZ divisor)))) then DebugPanic else
+   if negb ((((lenZ divisor)) <=? ((lenZ numerator)))) then DebugPanic else
+  do t_1 <- (match (nth_error divisor (Z.to_nat (lenZ divisor - 1))) with Some x_ => Val x_ | None => Panic end) ; if negb ((1 <=? t_1)) then DebugPanic else
+   let n := (lenZ divisor) in
+  do t_2 <- chk64 (((lenZ numerator)) - n) ; let m := t_2 in
+  do t_13 <- (do t_3 <- chk64 (n - 1) ; do t_4 <- idx divisor t_3 ; do t_5 <- chk64 (n - 2) ; do t_6 <- idx divisor t_5 ; let d := (g_dw_join t_4 t_6) in
+   let shift := (clz64 ((g_dw_high d))) in
+  do t_12 <- (if (shift =? 0) then (Val d) else (do t_7 <- chksh 128 shift ; do t_8 <- chk64 (n - 3) ; do t_9 <- idx divisor t_8 ; do t_10 <- chk64 (64 - shift) ; do t_11 <- chksh 64 t_10 ; Val (Z.lor ((shl128 d t_7)) ((shr64 t_9 t_11))))) ; Val (t_12, shift)) ; let '(d, shift) := t_13 in
+   if negb ((170141183460469231731687303715884105728 <=? d)) then DebugPanic else
+  do t_14 <- g_reciprocal_2_mg10 d ; let v := t_14 in
+  let q_high := 0 in
+  do t_15 <- chk64 (m + 1) ; do t_76 <- for_down (Z.to_nat (t_15 - 0)) (numerator, q_high) (nxm_body divisor n d v shift) ;
+  let '(numerator, q_high) := t_76 in
+  do t_78 <- subslice numerator 0 n ; if negb (lenZ divisor =? lenZ t_78) then Panic else let divisor := t_78 in
+   do numerator <- copy_within numerator n ((lenZ numerator)) 0 ;
+   let t_79 := q_high in do _ <- idx numerator m ; let numerator := upd numerator m t_79 in
+  do t_80 <- chk64 (m + 1) ; do numerator <- fill_from numerator t_80 0 ;
+  Val (numerator, divisor)).
+Proof. reflexivity. Qed.
+
+Lemma obind_assoc {A C D} (o : outcome A) (f : A -> outcome C) (g : C -> outcome D) :
+  (do x <- (do y <- o ; f y) ; g x) = (do y <- o ; do x <- f y ; g x).
+Proof. destruct o; reflexivity. Qed.
+
+Lemma get_or_default_eq (l : list Z) i : get_or_default l (Z.of_nat i) = DivKnuth.get_or0 l i.
+Proof. unfold get_or_default, DivKnuth.get_or0. rewrite Nat2Z.id. reflexivity. Qed.
+
+Lemma get_or0_inW l i : Forall inW l -> inW (DivKnuth.get_or0 l i).
+Proof.
+  intros H. unfold DivKnuth.get_or0. destruct (Nat.ltb_spec i (length l)).
+  - rewrite Forall_forall in H. apply H. apply nth_In. exact H0.
+  - rewrite nth_overflow by lia. unfold inW. pose proof B_pos. lia.
+Qed.
+
+Lemma lor_range k a b : 0 < k -> 0 <= a < 2 ^ k -> 0 <= b < 2 ^ k -> 0 <= Z.lor a b < 2 ^ k.
+Proof.
+  intros Hk Ha Hb. split; [apply Z.lor_nonneg; lia|].
+  destruct (Z.eq_dec (Z.lor a b) 0) as [->|N]; [lia|].
+  apply Z.log2_lt_pow2; [pose proof (proj2 (Z.lor_nonneg a b) (conj (proj1 Ha) (proj1 Hb))); lia|].
+  rewrite Z.log2_lor by lia. apply Z.max_lub_lt.
+  - destruct (Z.eq_dec a 0) as [->|]; [cbn; lia|]. apply Z.log2_lt_pow2; lia.
+  - destruct (Z.eq_dec b 0) as [->|]; [cbn; lia|]. apply Z.log2_lt_pow2; lia.
+Qed.
+
+Lemma store_eq (num : list Z) k q qh :
+  (do p <- (if Z.of_nat k <? lenZ num
+            then (do _ <- idx num (Z.of_nat k) ; Val (upd num (Z.of_nat k) q, qh))
+            else Val (num, q)) ;
+   let '(numerator, q_high) := p in Val (numerator, q_high))
+  = (if Nat.ltb k (length num) then (do num0 <- DivKnuth.set num k q ; Val (num0, qh)) else Val (num, q)).
+Proof.
+  unfold lenZ. destruct (Nat.ltb_spec k (length num)) as [H|H].
+  - replace (Z.of_nat k <? Z.of_nat (length num)) with true by lia.
+    destruct (set_cases num k q) as [(l' & y & Es & Ei & Eu) | (Es & Ei)]; rewrite Es, Ei; cbn [obind];
+      [rewrite Eu; reflexivity | reflexivity].
+  - replace (Z.of_nat k <? Z.of_nat (length num)) with false by lia. reflexivity.
+Qed.
+
+Lemma nxm_body_eq divisor d v shift num qh j :
+  Forall inW num -> Forall inW divisor -> (3 <= length divisor)%nat -> 0 <= d < BB -> inW v ->
+  0 <= shift <= 63 -> Z.of_nat (j + length divisor) + 1 < B ->
+  nxm_body divisor (Z.of_nat (length divisor)) d v shift (Z.of_nat j) (num, qh)
+  = DivKnuth.nxm_step num divisor (length divisor) j d v shift qh.
+Proof.
+  intros Hnum Hdiv Hn Hd Hv Hsh HB. set (n := length divisor) in *.
+  unfold nxm_body, DivKnuth.nxm_step. cbv beta zeta iota.
+  replace (0 + Z.of_nat j) with (Z.of_nat j) by lia.
+  rewrite <- !Nat2Z.inj_add.
+  rewrite !(chk64_ok (Z.of_nat (j + n))) by lia. cbn [obind].
+  rewrite !(chk64_ok (Z.of_nat (j + n) - 1)) by lia. cbn [obind].
+  rewrite !(chk64_ok (Z.of_nat (j + n) - 2)) by lia. cbn [obind].
+  assert (H3 : 0 <= Z.of_nat (j + n) - 3 < B) by lia.
+  rewrite ?(chk64_ok (Z.of_nat (j + n) - 3)) by exact H3. cbn [obind].
+  replace (Z.of_nat (j + n) - 1) with (Z.of_nat (j + n - 1)) by lia.
+  replace (Z.of_nat (j + n) - 2) with (Z.of_nat (j + n - 2)) by lia.
+  replace (Z.of_nat (j + n) - 3) with (Z.of_nat (j + n - 3)) by lia.
+  rewrite !idx_get, !get_or_default_eq. rewrite !obind_assoc.
+  pose proof (get_or0_inW num (j + n) Hnum) as Hn2. set (n2 := DivKnuth.get_or0 num (j + n)) in *.
+  head_step n1 En1. pose proof (get_inW _ _ _ Hnum En1) as Hn1.
+  rewrite !obind_assoc.
+  head_step n0 En0. pose proof (get_inW _ _ _ Hnum En0) as Hn0.
+  rewrite g_dw_join_eq by assumption.
+  pose proof (join_range n2 n1 Hn2 Hn1) as Hn21.
+  assert (HM : inW (B - 1)) by (unfold inW; rewrite B_val; lia).
+  destruct (Z.eqb_spec shift 0) as [Es|Es].
+  - (* shift = 0 *)
+    cbn [obind]. cbv beta iota.
+    destruct (Z.leb_spec (join n2 n1) d); destruct (Z.ltb_spec d (join n2 n1)); try lia; cbn [negb]; [|reflexivity].
+    destruct (Z.ltb_spec (join n2 n1) d) as [Hlt|Hge].
+    + rewrite g_div_3x2_mg10_eq by assumption. rewrite !obind_assoc.
+      destruct (div_3x2_mg10 (join n2 n1) n0 d v) as [[q r]| | | |] eqn:Ed; cbn [obind]; try reflexivity.
+      destruct (div_3x2_mg10_range _ _ _ _ _ _ Ed) as [Hq Hr].
+      cbv beta iota.
+      destruct (Z.eqb_spec q 0) as [Eq0|Nq0]; cbn [negb obind].
+      * (* q = 0: nothing to subtract *)
+        cbv beta iota. apply store_eq.
+      * (* q <> 0, shift = 0: subtract q * divisor[..n-2] from the window, fix the two top limbs *)
+        rewrite !obind_assoc.
+        rewrite (subslice_slice' num j _ (n - 2)) by lia.
+        destruct (DivKnuth.slice num j (n - 2)) as [w| | | |] eqn:Ew; cbn [obind]; try reflexivity. rewrite ?obind_assoc.
+        destruct (slice_inW _ _ _ _ Hnum Ew) as [Hw Hlw].
+        rewrite chk64_ok by lia. cbn [obind].
+        rewrite (subslice_slice0 divisor _ (n - 2)) by lia.
+        destruct (DivKnuth.slice divisor 0 (n - 2)) as [dl| | | |] eqn:Edl; cbn [obind]; try reflexivity. rewrite ?obind_assoc.
+        destruct (slice_inW _ _ _ _ Hdiv Edl) as [Hdl Hldl].
+        rewrite g_submul_nx1_eq by assumption.
+        destruct (submul_nx1_spec w dl q ltac:(lia) Hw Hdl Hq) as (sr & sbo & Es' & Hlsr & Hwsr & Hsbo & _).
+        rewrite Es'. cbn [obind omap fst snd]. cbv beta iota.
+        rewrite splice_eq.
+        change (Prim.ov_sub128 r sbo) with (DivKnuth.ov_sub128 r sbo).
+        unfold DivKnuth.ov_sub128. cbv beta iota.
+        rewrite g_dw_low_eq. rewrite g_dw_high_eq by (unfold wrap128; apply Z.mod_pos_bound; reflexivity).
+        pose proof (splice_inW num j sr Hnum Hwsr) as Hnum1.
+        destruct (set_cases (DivKnuth.splice num j sr) (j + n - 2) (lo128 (wrap128 (r - sbo))))
+          as [(num2 & y2 & E2 & Ei2 & Eu2) | (E2 & Ei2)]; rewrite E2, Ei2; cbn [obind]; [rewrite Eu2 | reflexivity].
+        pose proof (set_inW _ _ _ _ Hnum1 (lo128_inW _) E2) as Hnum2.
+        assert (Hhi : inW (hi128 (wrap128 (r - sbo)))).
+        { apply hi128_inW. unfold wrap128. apply Z.mod_pos_bound. reflexivity. }
+        destruct (set_cases num2 (j + n - 1) (hi128 (wrap128 (r - sbo))))
+          as [(num3 & y3 & E3 & Ei3 & Eu3) | (E3 & Ei3)]; rewrite E3, Ei3; cbn [obind]; [rewrite Eu3 | reflexivity].
+        pose proof (set_inW _ _ _ _ Hnum2 Hhi E3) as Hnum3.
+        destruct (r <? sbo); cbv beta iota.
+        -- rewrite ?obind_assoc. rewrite subslice_slice.
+           destruct (DivKnuth.slice num3 j n) as [w2| | | |] eqn:Ew2; cbn [obind]; try reflexivity.
+           destruct (slice_inW _ _ _ _ Hnum3 Ew2) as [Hw2 Hlw2].
+           rewrite ?obind_assoc. rewrite (subslice_slice0 divisor _ n) by lia.
+           destruct (DivKnuth.slice divisor 0 n) as [dn| | | |] eqn:Edn; cbn [obind]; try reflexivity.
+           destruct (slice_inW _ _ _ _ Hdiv Edn) as [Hdn Hldn].
+           rewrite ?obind_assoc.
+           rewrite g_adc_n_eq by (auto; try lia; unfold inW; pose proof B_pos; lia).
+           destruct (adc_n w2 dn 0) as [[ar ac]| | | |] eqn:Ea; cbn [obind omap fst snd]; try reflexivity.
+           cbv beta iota. rewrite splice_eq.
+           destruct (ac =? 1); cbn [negb obind]; [|reflexivity].
+           cbv beta iota. apply store_eq.
+        -- cbn [obind]. cbv beta iota. apply store_eq.
+    + (* n21 = d: the quotient digit is forced to MAX *)
+      rewrite !obind_assoc. rewrite subslice_slice.
+      destruct (DivKnuth.slice num j n) as [w| | | |] eqn:Ew; cbn [obind]; try reflexivity. rewrite ?obind_assoc.
+      destruct (slice_inW _ _ _ _ Hnum Ew) as [Hw Hlw].
+      rewrite g_submul_nx1_eq by assumption.
+      destruct (submul_nx1 w divisor (B - 1)) as [[sr sbo]| | | |] eqn:Es'; cbn [obind omap fst snd]; try reflexivity.
+      cbv beta iota. rewrite splice_eq. apply store_eq.
+  - (* shift <> 0: the three leading numerator limbs are shifted on the fly *)
+    rewrite !obind_assoc.
+    rewrite !chksh_ok by lia. cbn [obind].
+    rewrite !(chk64_ok (64 - shift)) by (rewrite B_val; lia). cbn [obind].
+    rewrite !chksh_ok by lia. cbn [obind].
+    rewrite ?obind_assoc.
+    destruct (DivKnuth.get num (j + n - 3)) as [n3| | | |] eqn:En3; cbn [obind]; try reflexivity.
+    pose proof (get_inW _ _ _ Hnum En3) as Hn3.
+    cbv beta iota.
+    change (Prim.shl128 (join n2 n1) shift) with (DivSmall.shl128 (join n2 n1) shift).
+    set (n21 := Z.lor (DivSmall.shl128 (join n2 n1) shift) (shr64 n0 (64 - shift))).
+    set (n0' := Z.lor (shl64 n0 shift) (shr64 n3 (64 - shift))).
+    assert (Hn21' : 0 <= n21 < BB).
+    { unfold n21. apply (lor_range 128); [lia | unfold DivSmall.shl128; apply Z.mod_pos_bound; reflexivity |].
+      pose proof (shr64_inW n0 (64 - shift) Hn0 ltac:(lia)) as Hx. unfold inW in Hx. rewrite B_val in Hx.
+      change (2 ^ 128) with 340282366920938463463374607431768211456. lia. }
+    assert (Hn0' : inW n0') by (unfold n0'; apply lor_inW; [apply shl64_inW | apply shr64_inW; [exact Hn3 | lia]]).
+    clearbody n21 n0'.
+    destruct (Z.leb_spec n21 d); destruct (Z.ltb_spec d n21); try lia; cbn [negb]; [|reflexivity].
+    destruct (Z.ltb_spec n21 d) as [Hlt|Hge].
+    + rewrite g_div_3x2_mg10_eq by assumption. rewrite !obind_assoc.
+      destruct (div_3x2_mg10 n21 n0' d v) as [[q r]| | | |] eqn:Ed; cbn [obind]; try reflexivity.
+      destruct (div_3x2_mg10_range _ _ _ _ _ _ Ed) as [Hq Hr].
+      cbv beta iota.
+      destruct (Z.eqb_spec q 0) as [Eq0|Nq0]; cbn [negb obind].
+      * cbv beta iota. apply store_eq.
+      * rewrite !obind_assoc. rewrite subslice_slice.
+        destruct (DivKnuth.slice num j n) as [w| | | |] eqn:Ew; cbn [obind]; try reflexivity. rewrite ?obind_assoc.
+        destruct (slice_inW _ _ _ _ Hnum Ew) as [Hw Hlw].
+        rewrite g_submul_nx1_eq by assumption.
+        destruct (submul_nx1_spec w divisor q ltac:(lia) Hw Hdiv Hq) as (sr & sbo & Es' & Hlsr & Hwsr & Hsbo & _).
+        rewrite Es'. cbn [obind omap fst snd]. cbv beta iota.
+        rewrite splice_eq, get_or_default_eq.
+        pose proof (splice_inW num j sr Hnum Hwsr) as Hnum1.
+        destruct (negb (sbo =? DivKnuth.get_or0 (DivKnuth.splice num j sr) (j + n))); cbv beta iota.
+        -- rewrite ?obind_assoc. rewrite subslice_slice.
+           destruct (DivKnuth.slice (DivKnuth.splice num j sr) j n) as [w2| | | |] eqn:Ew2; cbn [obind]; try reflexivity.
+           destruct (slice_inW _ _ _ _ Hnum1 Ew2) as [Hw2 Hlw2].
+           rewrite ?obind_assoc. rewrite (subslice_slice0 divisor _ n) by lia.
+           destruct (DivKnuth.slice divisor 0 n) as [dn| | | |] eqn:Edn; cbn [obind]; try reflexivity.
+           destruct (slice_inW _ _ _ _ Hdiv Edn) as [Hdn Hldn].
+           rewrite ?obind_assoc.
+           rewrite g_adc_n_eq by (auto; try lia; unfold inW; pose proof B_pos; lia).
+           destruct (adc_n w2 dn 0) as [[ar ac]| | | |] eqn:Ea; cbn [obind omap fst snd]; try reflexivity.
+           cbv beta iota. rewrite splice_eq.
+           destruct (ac =? 1); cbn [negb obind]; [|reflexivity].
+           cbv beta iota. apply store_eq.
+        -- cbn [obind]. cbv beta iota. apply store_eq.
+    + rewrite !obind_assoc. rewrite subslice_slice.
+      destruct (DivKnuth.slice num j n) as [w| | | |] eqn:Ew; cbn [obind]; try reflexivity. rewrite ?obind_assoc.
+      destruct (slice_inW _ _ _ _ Hnum Ew) as [Hw Hlw].
+      rewrite g_submul_nx1_eq by assumption.
+      destruct (submul_nx1 w divisor (B - 1)) as [[sr sbo]| | | |] eqn:Es'; cbn [obind omap fst snd]; try reflexivity.
+      cbv beta iota. rewrite splice_eq. apply store_eq.
+Qed.
+
+Lemma set_length l i x l' : DivKnuth.set l i x = Val l' -> length l' = length l.
+Proof.
+  unfold DivKnuth.set. destruct (Nat.ltb_spec i (length l)); [|discriminate]. intros E. injection E as <-.
+  change (length (firstn i l ++ x :: skipn (S i) l) = length l).
+  rewrite app_length. change (length (x :: skipn (S i) l)) with (S (length (skipn (S i) l))).
+  rewrite firstn_length, (skipn_length (S i) l). lia.
+Qed.
+Lemma slice_bound l j k w : DivKnuth.slice l j k = Val w -> (j + k <= length l)%nat.
+Proof. unfold DivKnuth.slice. destruct (Nat.leb_spec (j + k) (length l)); [auto | discriminate]. Qed.
+Lemma splice_length l j w : (j + length w <= length l)%nat -> length (DivKnuth.splice l j w) = length l.
+Proof.
+  intros H. unfold DivKnuth.splice. rewrite !app_length, firstn_length, skipn_length. lia.
+Qed.
+
+(* the step keeps the numerator a word list of the same length *)
+Lemma nxm_step_inv num divisor j d v shift qh num' qh' :
+  Forall inW num -> Forall inW divisor ->
+  DivKnuth.nxm_step num divisor (length divisor) j d v shift qh = Val (num', qh') ->
+  Forall inW num' /\ length num' = length num.
+Proof.
+  intros Hnum Hdiv E. set (n := length divisor) in *. unfold DivKnuth.nxm_step in E. cbv zeta in E.
+  destruct (DivKnuth.get num (j + n - 1)) as [n1| | | |]; cbn [obind] in E; try discriminate.
+  destruct (DivKnuth.get num (j + n - 2)) as [n0| | | |]; cbn [obind] in E; try discriminate.
+  assert (HM : inW (B - 1)) by (unfold inW; rewrite B_val; lia).
+  (* whatever the fetched (n21, n0) are, the three ways of updating num preserve words and length *)
+  assert (Store : forall (nm : list Z) q, Forall inW nm -> length nm = length num -> inW q ->
+            (if Nat.ltb (j + n) (length nm) then (do num1 <- DivKnuth.set nm (j + n) q ; Val (num1, qh)) else Val (nm, q))
+            = Val (num', qh') -> Forall inW num' /\ length num' = length num).
+  { intros nm q Hnm Hl Hq Est. destruct (Nat.ltb (j + n) (length nm)).
+    - destruct (DivKnuth.set nm (j + n) q) as [nm1| | | |] eqn:E1; cbn [obind] in Est; try discriminate.
+      injection Est as <- _. split; [eapply set_inW; eauto | rewrite (set_length _ _ _ _ E1); exact Hl].
+    - injection Est as <- _. split; assumption. }
+  assert (Sub : forall (nm : list Z) k (dv : list Z) q w sr sbo, Forall inW nm -> length nm = length num ->
+            Forall inW dv -> length dv = k -> inW q ->
+            DivKnuth.slice nm j k = Val w -> submul_nx1 w dv q = Val (sr, sbo) ->
+            Forall inW (DivKnuth.splice nm j sr) /\ length (DivKnuth.splice nm j sr) = length num).
+  { intros nm k dv q w sr sbo Hnm Hl Hdv Hk Hq Ew Es.
+    destruct (slice_inW _ _ _ _ Hnm Ew) as [Hw Hlw]. pose proof (slice_bound _ _ _ _ Ew) as Hb.
+    destruct (submul_nx1_spec w dv q ltac:(lia) Hw Hdv Hq) as (sr' & sbo' & Es' & Hlsr & Hwsr & _).
+    rewrite Es in Es'. injection Es' as <- <-.
+    split; [apply splice_inW; assumption | rewrite splice_length; lia]. }
+  assert (AddBack : forall (nm : list Z) q, Forall inW nm -> length nm = length num -> inW q ->
+            (do w <- DivKnuth.slice nm j n ; do dn <- DivKnuth.slice divisor 0 n ; do ac <- adc_n w dn 0 ;
+             if snd ac =? 1 then Val (wrap (q - 1), DivKnuth.splice nm j (fst ac)) else DebugPanic)
+            = Val (wrap (q - 1), DivKnuth.splice nm j (fst (match adc_n (match DivKnuth.slice nm j n with Val w => w | _ => [] end)
+                                                                   (match DivKnuth.slice divisor 0 n with Val w => w | _ => [] end) 0
+                                                             with Val p => p | _ => ([], 0) end))) ->
+            True) by (intros; exact I).
+  clear AddBack.
+  match type of E with (do nn <- ?F ; _) = _ => destruct F as [[n21 n0']| | | |] eqn:EF end; cbn [obind] in E; try discriminate.
+  cbv beta iota in E.
+  destruct (d <? n21); [discriminate|].
+  destruct (n21 <? d).
+  - destruct (div_3x2_mg10 n21 n0' d v) as [[q r]| | | |] eqn:Ed; cbn [obind] in E; try discriminate.
+    destruct (div_3x2_mg10_range _ _ _ _ _ _ Ed) as [Hq Hr]. cbv beta iota in E.
+    destruct (negb (q =? 0)); cbn [obind] in E.
+    + destruct (shift =? 0).
+      * destruct (DivKnuth.slice num j (n - 2)) as [w| | | |] eqn:Ew; cbn [obind] in E; try discriminate.
+        destruct (DivKnuth.slice divisor 0 (n - 2)) as [dl| | | |] eqn:Edl; cbn [obind] in E; try discriminate.
+        destruct (slice_inW _ _ _ _ Hdiv Edl) as [Hdl Hldl].
+        destruct (submul_nx1 w dl q) as [[sr sbo]| | | |] eqn:Es; cbn [obind fst snd] in E; try discriminate.
+        destruct (Sub num (n - 2)%nat dl q w sr sbo Hnum eq_refl Hdl Hldl Hq Ew Es) as [Hw1 Hl1].
+        unfold DivKnuth.ov_sub128 in E. cbv beta iota in E.
+        destruct (DivKnuth.set (DivKnuth.splice num j sr) (j + n - 2) (lo128 (wrap128 (r - sbo)))) as [num2| | | |] eqn:E2;
+          cbn [obind] in E; try discriminate.
+        pose proof (set_inW _ _ _ _ Hw1 (lo128_inW _) E2) as Hw2. pose proof (set_length _ _ _ _ E2) as Hl2.
+        assert (Hhi : inW (hi128 (wrap128 (r - sbo)))).
+        { apply hi128_inW. unfold wrap128. apply Z.mod_pos_bound. reflexivity. }
+        destruct (DivKnuth.set num2 (j + n - 1) (hi128 (wrap128 (r - sbo)))) as [num3| | | |] eqn:E3;
+          cbn [obind] in E; try discriminate.
+        pose proof (set_inW _ _ _ _ Hw2 Hhi E3) as Hw3. pose proof (set_length _ _ _ _ E3) as Hl3.
+        destruct (r <? sbo).
+        -- destruct (DivKnuth.slice num3 j n) as [w2| | | |] eqn:Ew2; cbn [obind] in E; try discriminate.
+           destruct (slice_inW _ _ _ _ Hw3 Ew2) as [Hww2 Hlw2]. pose proof (slice_bound _ _ _ _ Ew2) as Hb2.
+           destruct (DivKnuth.slice divisor 0 n) as [dn| | | |] eqn:Edn; cbn [obind] in E; try discriminate.
+           destruct (slice_inW _ _ _ _ Hdiv Edn) as [Hdn Hldn].
+           destruct (adc_n_spec w2 dn 0 ltac:(lia) Hww2 Hdn ltac:(unfold inW; pose proof B_pos; lia))
+             as (ar & ac & Ea & Hlar & Hwar & _ & _).
+           rewrite Ea in E. cbn [obind fst snd] in E.
+           destruct (ac =? 1); cbn [obind] in E; [|discriminate].
+           apply (Store (DivKnuth.splice num3 j ar) (wrap (q - 1))
+                    (splice_inW _ _ _ Hw3 Hwar) ltac:(rewrite splice_length; lia) (wrap_inW _) E).
+        -- cbn [obind] in E. apply (Store num3 q Hw3 ltac:(lia) Hq E).
+      * destruct (DivKnuth.slice num j n) as [w| | | |] eqn:Ew; cbn [obind] in E; try discriminate.
+        destruct (submul_nx1 w divisor q) as [[sr sbo]| | | |] eqn:Es; cbn [obind fst snd] in E; try discriminate.
+        destruct (Sub num n divisor q w sr sbo Hnum eq_refl Hdiv eq_refl Hq Ew Es) as [Hw1 Hl1].
+        destruct (negb (sbo =? DivKnuth.get_or0 (DivKnuth.splice num j sr) (j + n))).
+        -- destruct (DivKnuth.slice (DivKnuth.splice num j sr) j n) as [w2| | | |] eqn:Ew2; cbn [obind] in E; try discriminate.
+           destruct (slice_inW _ _ _ _ Hw1 Ew2) as [Hww2 Hlw2]. pose proof (slice_bound _ _ _ _ Ew2) as Hb2.
+           destruct (DivKnuth.slice divisor 0 n) as [dn| | | |] eqn:Edn; cbn [obind] in E; try discriminate.
+           destruct (slice_inW _ _ _ _ Hdiv Edn) as [Hdn Hldn].
+           destruct (adc_n_spec w2 dn 0 ltac:(lia) Hww2 Hdn ltac:(unfold inW; pose proof B_pos; lia))
+             as (ar & ac & Ea & Hlar & Hwar & _ & _).
+           rewrite Ea in E. cbn [obind fst snd] in E.
+           destruct (ac =? 1); cbn [obind] in E; [|discriminate].
+           apply (Store (DivKnuth.splice (DivKnuth.splice num j sr) j ar) (wrap (q - 1))
+                    (splice_inW _ _ _ Hw1 Hwar) ltac:(rewrite splice_length; lia) (wrap_inW _) E).
+        -- cbn [obind] in E. apply (Store _ q Hw1 Hl1 Hq E).
+    + apply (Store num q Hnum eq_refl Hq E).
+  - destruct (DivKnuth.slice num j n) as [w| | | |] eqn:Ew; cbn [obind] in E; try discriminate.
+    destruct (submul_nx1 w divisor (B - 1)) as [[sr sbo]| | | |] eqn:Es; cbn [obind fst snd] in E; try discriminate.
+    destruct (Sub num n divisor (B - 1) w sr sbo Hnum eq_refl Hdiv eq_refl HM Ew Es) as [Hw1 Hl1].
+    apply (Store _ (B - 1) Hw1 Hl1 HM E).
+Qed.
+
+Lemma nxm_loop_eq divisor d v shift k : forall num qh,
+  Forall inW num -> Forall inW divisor -> (3 <= length divisor)%nat -> 0 <= d < BB -> inW v ->
+  0 <= shift <= 63 -> Z.of_nat (k + length divisor) < B ->
+  for_down k (num, qh) (nxm_body divisor (Z.of_nat (length divisor)) d v shift)
+  = DivKnuth.nxm_loop k num divisor (length divisor) d v shift qh.
+Proof.
+  induction k as [|k IH]; intros num qh Hnum Hdiv Hn Hd Hv Hsh HB; [reflexivity|].
+  cbn [for_down DivKnuth.nxm_loop].
+  rewrite (nxm_body_eq divisor d v shift num qh k Hnum Hdiv Hn Hd Hv Hsh ltac:(lia)).
+  destruct (DivKnuth.nxm_step num divisor (length divisor) k d v shift qh) as [[num' qh']| | | |] eqn:Es;
+    cbn [obind fst snd]; try reflexivity.
+  destruct (nxm_step_inv num divisor k d v shift qh num' qh' Hnum Hdiv Es) as [Hw' _].
+  apply IH; auto. lia.
+Qed.
+
+Lemma nxm_loop_length divisor d v shift k : forall num qh num' qh',
+  Forall inW num -> Forall inW divisor ->
+  DivKnuth.nxm_loop k num divisor (length divisor) d v shift qh = Val (num', qh') ->
+  length num' = length num.
+Proof.
+  induction k as [|k IH]; intros num qh num' qh' Hnum Hdiv E.
+  - cbn in E. injection E as <- _. reflexivity.
+  - cbn [DivKnuth.nxm_loop] in E.
+    destruct (DivKnuth.nxm_step num divisor (length divisor) k d v shift qh) as [[num1 qh1]| | | |] eqn:Es;
+      cbn [obind fst snd] in E; try discriminate.
+    destruct (nxm_step_inv num divisor k d v shift qh num1 qh1 Hnum Hdiv Es) as [Hw1 Hl1].
+    rewrite (IH num1 qh1 num' qh' Hw1 Hdiv E). exact Hl1.
+Qed.
+
+Lemma idx_app_at' (pre : list Z) x post i : i = Z.of_nat (length pre) -> idx (pre ++ x :: post) i = Val x.
+Proof. intros ->. apply idx_app_mid. Qed.
+Lemma upd_app_at' (pre : list Z) x post i v : i = Z.of_nat (length pre) ->
+  upd (pre ++ x :: post) i v = pre ++ v :: post.
+Proof. intros ->. apply upd_app_mid. Qed.
+
+(* divisor.copy_from_slice(&numerator[..n]); numerator.copy_within(n.., 0); numerator[m] = q_high;
+   numerator[m + 1..].fill(0) *)
+Lemma nxm_epilogue (num divisor : list Z) qh n m :
+  length num = (m + n)%nat -> (1 <= n)%nat -> length divisor = n -> Z.of_nat (m + n) + 1 < B ->
+  (do t_78 <- subslice num 0 (Z.of_nat n) ;
+   if negb (lenZ divisor =? lenZ t_78) then Panic else
+   do numerator <- copy_within num (Z.of_nat n) (lenZ num) 0 ;
+   do _ <- idx numerator (Z.of_nat m) ; let numerator := upd numerator (Z.of_nat m) qh in
+   do t_80 <- chk64 (Z.of_nat m + 1) ; do numerator <- fill_from numerator t_80 0 ;
+   Val (numerator, t_78))
+  = Val (skipn n num ++ qh :: repeat 0 (length num - m - 1), firstn n num).
+Proof.
+  intros HL Hn Hd HB.
+  rewrite (subslice_slice0 num (Z.of_nat n) n eq_refl). unfold DivKnuth.slice.
+  replace (Nat.leb (0 + n) (length num)) with true by (symmetry; apply Nat.leb_le; lia).
+  cbn [obind skipn].
+  unfold lenZ. rewrite firstn_length. replace (Nat.min n (length num)) with n by lia.
+  rewrite Hd. rewrite Z.eqb_refl. cbn [negb].
+  unfold copy_within, lenZ.
+  replace ((0 <=? Z.of_nat n) && (Z.of_nat n <=? Z.of_nat (length num)) && (Z.of_nat (length num) <=? Z.of_nat (length num))
+           && (0 <=? 0) && (0 + (Z.of_nat (length num) - Z.of_nat n) <=? Z.of_nat (length num))) with true by lia.
+  cbn [obind]. change (Z.to_nat 0) with 0%nat. cbn [firstn app].
+  replace (Z.to_nat (Z.of_nat (length num) - Z.of_nat n)) with m by lia.
+  replace (Z.to_nat (0 + (Z.of_nat (length num) - Z.of_nat n))) with m by lia.
+  rewrite Nat2Z.id.
+  assert (Hsk : length (skipn n num) = m) by (rewrite skipn_length; lia).
+  rewrite (firstn_all2 (skipn n num)) by lia.
+  destruct (skipn m num) as [|y rest] eqn:Esm.
+  { assert (length (skipn m num) = 0%nat) by (rewrite Esm; reflexivity). rewrite skipn_length in H. lia. }
+  assert (Hrest : length rest = (n - 1)%nat).
+  { assert (length (skipn m num) = S (length rest)) by (rewrite Esm; reflexivity). rewrite skipn_length in H. lia. }
+  rewrite (idx_app_at' (skipn n num) y rest) by lia. cbn [obind].
+  rewrite (upd_app_at' (skipn n num) y rest) by lia.
+  rewrite chk64_ok by lia. cbn [obind].
+  unfold fill_from, lenZ. rewrite app_length. cbn [length].
+  replace ((0 <=? Z.of_nat m + 1) && (Z.of_nat m + 1 <=? Z.of_nat (length (skipn n num) + S (length rest)))) with true by lia.
+  cbn [obind]. replace (Z.to_nat (Z.of_nat m + 1)) with (length (skipn n num ++ [qh])) by (rewrite app_length; cbn [length]; lia).
+  replace (skipn n num ++ qh :: rest) with ((skipn n num ++ [qh]) ++ rest) by (rewrite <- app_assoc; reflexivity).
+  rewrite firstn_app, firstn_all, Nat.sub_diag. cbn [firstn]. rewrite app_nil_r.
+  rewrite <- app_assoc. cbn [app].
+  replace (length (skipn n num) + S (length rest) - length (skipn n num ++ [qh]))%nat with (length num - m - 1)%nat
+    by (rewrite app_length; cbn [length]; lia).
+  reflexivity.
+Qed.
+
+Theorem g_div_nxm_eq numerator divisor :
+  Forall inW numerator -> Forall inW divisor -> lenZ numerator + 1 < B ->
+  g_div_nxm numerator divisor = DivKnuth.div_nxm numerator divisor.
+Proof.
+  intros Hnum Hdiv HB. rewrite g_div_nxm_unfold. unfold DivKnuth.div_nxm, lenZ in *.
+  set (n := length divisor). set (L := length numerator) in *.
+  destruct (Nat.ltb_spec n 3) as [H3|H3].
+  { replace (3 <=? Z.of_nat n) with false by lia. reflexivity. }
+  replace (3 <=? Z.of_nat n) with true by lia. cbn [negb].
+  destruct (Nat.ltb_spec L n) as [HL|HL]; cbn [negb].
+  { replace (Z.of_nat n <=? Z.of_nat L) with false by lia. reflexivity. }
+  replace (Z.of_nat n <=? Z.of_nat L) with true by lia. cbn [negb].
+  assert (Hne : divisor <> []) by (destruct divisor; [cbn in H3; lia | discriminate]).
+  pose proof (nth_error_last divisor Hne) as El. unfold lenZ in El. fold n in El. rewrite El. cbn [obind].
+  destruct (Z.ltb_spec (last divisor 0) 1); destruct (Z.leb_spec 1 (last divisor 0)); try lia; cbn [negb]; [reflexivity|].
+  cbv zeta.
+  rewrite (chk64_ok (Z.of_nat L - Z.of_nat n)) by lia. cbn [obind].
+  rewrite !obind_assoc.
+  rewrite (chk64_ok (Z.of_nat n - 1)) by lia. cbn [obind].
+  replace (Z.of_nat n - 1) with (Z.of_nat (n - 1)) by lia. rewrite idx_get. rewrite ?obind_assoc.
+  destruct (DivKnuth.get divisor (n - 1)) as [d1| | | |] eqn:E1; cbn [obind]; try reflexivity.
+  rewrite (chk64_ok (Z.of_nat n - 2)) by lia. cbn [obind].
+  replace (Z.of_nat n - 2) with (Z.of_nat (n - 2)) by lia. rewrite idx_get. rewrite ?obind_assoc.
+  destruct (DivKnuth.get divisor (n - 2)) as [d0| | | |] eqn:E0; cbn [obind]; try reflexivity.
+  pose proof (get_inW _ _ _ Hdiv E1) as Hd1. pose proof (get_inW _ _ _ Hdiv E0) as Hd0.
+  rewrite !g_dw_join_eq by assumption.
+  pose proof (join_range d1 d0 Hd1 Hd0) as Hd.
+  rewrite !g_dw_high_eq by exact Hd.
+  rewrite (PfDivBase.hi128_join d1 d0 Hd0).
+  (* shift = clz64 d1: d1 > 0 because ... the last limb of the divisor is d1 *)
+  assert (Ed1 : d1 = last divisor 0).
+  { unfold DivKnuth.get in E1. rewrite <- (Nat2Z.id (n - 1)) in E1.
+    replace (Z.of_nat (n - 1)) with (Z.of_nat (length divisor) - 1) in E1 by (fold n; lia).
+    change (Z.of_nat (length divisor)) with (lenZ divisor) in E1. rewrite (nth_error_last divisor Hne) in E1.
+    injection E1 as <-. reflexivity. }
+  assert (Hd1pos : 0 < d1 < B) by (unfold inW in Hd1; lia).
+  destruct (PfDivSmall.clz64_spec d1 Hd1pos) as [Hsh _].
+  set (shift := clz64 d1) in *.
+  rewrite ?obind_assoc.
+  assert (Hcore : forall dd, 0 <= dd < BB ->
+    (if negb (170141183460469231731687303715884105728 <=? dd) then DebugPanic else
+     do t_14 <- g_reciprocal_2_mg10 dd ;
+     do t_15 <- chk64 (Z.of_nat L - Z.of_nat n + 1) ;
+     do t_76 <- for_down (Z.to_nat (t_15 - 0)) (numerator, 0) (nxm_body divisor (Z.of_nat n) dd t_14 shift) ;
+     let '(numerator0, q_high) := t_76 in
+     do t_78 <- subslice numerator0 0 (Z.of_nat n) ;
+     if negb (Z.of_nat (length divisor) =? Z.of_nat (length t_78)) then Panic else
+     do numerator1 <- copy_within numerator0 (Z.of_nat n) (Z.of_nat (length numerator0)) 0 ;
+     do _ <- idx numerator1 (Z.of_nat L - Z.of_nat n) ;
+     do t_80 <- chk64 (Z.of_nat L - Z.of_nat n + 1) ;
+     do numerator2 <- fill_from (upd numerator1 (Z.of_nat L - Z.of_nat n) q_high) t_80 0 ;
+     Val (numerator2, t_78))
+    = (if dd <? 2 ^ 127 then DebugPanic else
+       do v <- reciprocal_2_mg10 dd ;
+       do p <- DivKnuth.nxm_loop (S (L - n)) numerator divisor n dd v shift 0 ;
+       let '(num, q_high) := p in
+       Val (skipn n num ++ q_high :: repeat 0 (length num - (L - n) - 1), firstn n num))).
+  { intros dd Hdd. change 170141183460469231731687303715884105728 with (2 ^ 127).
+    destruct (Z.ltb_spec dd (2 ^ 127)); destruct (Z.leb_spec (2 ^ 127) dd); try lia; cbn [negb]; [reflexivity|].
+    rewrite g_reciprocal_2_mg10_eq by exact Hdd.
+    destruct (reciprocal_2_mg10 dd) as [v| | | |] eqn:Ev; cbn [obind]; try reflexivity.
+    pose proof (reciprocal_2_mg10_inW _ _ Ev) as Hv.
+    rewrite !chk64_ok by lia. cbn [obind].
+    replace (Z.to_nat (Z.of_nat L - Z.of_nat n + 1 - 0)) with (S (L - n)) by lia.
+    pose proof (nxm_loop_eq divisor dd v shift (S (L - n)) numerator 0 Hnum Hdiv H3 Hdd Hv Hsh ltac:(fold n; lia)) as Elp.
+    fold n in Elp. rewrite Elp.
+    destruct (DivKnuth.nxm_loop (S (L - n)) numerator divisor n dd v shift 0) as [[num qh]| | | |] eqn:En; cbn [obind]; try reflexivity.
+    pose proof (nxm_loop_length divisor dd v shift (S (L - n)) numerator 0 num qh Hnum Hdiv En) as Hln. fold L in Hln.
+    replace (Z.of_nat L - Z.of_nat n) with (Z.of_nat (L - n)) by lia.
+    pose proof (nxm_epilogue num divisor qh n (L - n) ltac:(lia) ltac:(lia) eq_refl ltac:(lia)) as Eep.
+    unfold lenZ in Eep. cbv zeta in Eep. rewrite chk64_ok in Eep by lia. cbn [obind] in Eep.
+    exact Eep. }
+  destruct (Z.eqb_spec shift 0) as [Es|Es].
+  - cbn [obind]. cbv beta iota. apply (Hcore (join d1 d0) Hd).
+  - rewrite chksh_ok by lia. cbn [obind].
+    rewrite (chk64_ok (Z.of_nat n - 3)) by lia. cbn [obind].
+    replace (Z.of_nat n - 3) with (Z.of_nat (n - 3)) by lia. rewrite idx_get. rewrite ?obind_assoc.
+    destruct (DivKnuth.get divisor (n - 3)) as [d3| | | |] eqn:E3; cbn [obind]; try reflexivity.
+    pose proof (get_inW _ _ _ Hdiv E3) as Hd3.
+    rewrite (chk64_ok (64 - shift)) by (rewrite B_val; lia). cbn [obind].
+    rewrite chksh_ok by lia. cbn [obind]. cbv beta iota.
+    change (Prim.shl128 (join d1 d0) shift) with (DivSmall.shl128 (join d1 d0) shift).
+    apply Hcore.
+    apply (lor_range 128); [lia | unfold DivSmall.shl128; apply Z.mod_pos_bound; reflexivity |].
+    pose proof (shr64_inW d3 (64 - shift) Hd3 ltac:(lia)) as Hx. unfold inW in Hx. rewrite B_val in Hx.
+    change (2 ^ 128) with 340282366920938463463374607431768211456. lia.
+Qed.
